@@ -188,7 +188,7 @@ CHECKS["C12"] = dict(
          "write / unknown id) of every enumerated configuration is run end to end with round-robin frame shapes; the backend's reference decode is compared "
          "field by field with what was sent, only the consistency may differ and only where the TLC table says so; well-framedness and decompression are checked",
     note="verdict left open for EXECUTE of ids unknown to the proxy; compression flag of re-encoded frames not asserted; quick tier enumerates adjacent pairs "
-         "and two overrides per list; single-node backend. Known finding: SELECT with a leading comment.",
+         "and two overrides per list; single-node backend.",
     design="§6 C12")
 CHECKS["C17"] = dict(
     category="exploration",
@@ -203,6 +203,19 @@ CHECKS["C17"] = dict(
     note="abstract classes with listed variants and seeded contents, not coverage-guided fuzzing (DESIGN §7); declared lengths up to 15 MiB; canary retries "
          "for 8 s because a backend connection torn down by garbage returns only after the reconnect delay.",
     design="§6 C17, §7")
+
+CHECKS["C09"] = dict(
+    category="exploration",
+    technique="TLA+ decision table plus a small connection-dispatch model (Intercept.tla) checked and exported by TLC; behaviours replayed into "
+              "parser.IsQueryHandled and into the in-process proxy against a fake backend",
+    text="every row of the intercept decision table (current keyspace x qualifier x table spelling incl. case/quote variants and look-alikes x "
+         "SELECT/non-SELECT/USE shapes) x {QUERY, PREPARE+EXECUTE, PREPARE+USE+EXECUTE, USE+QUERY, failed USE+QUERY} is answered locally iff the TLA+ "
+         "oracle says so, both by parser.IsQueryHandled (7 spellings each, plus comment forms) and by the running proxy (no client frame reaches the "
+         "fake backend for local steps; forwarded steps do reach it). TLC checks NeverForwardSystemLocalOrPeers, UserKeyspaceForwarded, "
+         "OnlyUseAndSelectLocal, LookAlikeForwarded, QualifierWins, spelling irrelevance and ExecuteFollowsPrepare on the table.",
+    note="finite enumerated spellings and shapes; protocol v4, one backend node; the table list is taken from parser/metadata.go; malformed SELECT/USE "
+         "not asserted; trusts the fake backend and the tracer ordering for the 'no backend frame' verdict; the failed-USE path is run on a core of rows only.",
+    design="§6 C09")
 
 NOT_YET = "check not built yet in this session (planned, see DESIGN.md §6)"
 
